@@ -944,6 +944,10 @@ def directed(uni_mc):
         # a sanity check that blocks the operation
         [dict(ev="opnew", m="install", fmt=["tc"], dom=["ta"]), dict(ev="setfail", t="tc", k="block"), dict(ev="finish"),
          dict(ev="setfail", t="tc", k="ok"), dict(ev="finish")],
+        # operations that fail and are given up
+        *[[dict(ev="opnew", m=m, fmt=["tc"], dom=["ta", "td"]), dict(ev="setfail", t="ta", k="runtime"), dict(ev="finish")]
+          for m in MODES],
+        [dict(ev="opnew", m="uninstall", fmt=["tc"], dom=[]), dict(ev="setfail", t="tc", k="block"), dict(ev="finish")],
     ]
     return eng, ops
 
